@@ -130,7 +130,8 @@ def mk_other(kind, name_i, alias_i, from_i, d):
     name = "a" if name_i == 0 else "b"
     alias = None if alias_i == 0 else "x"
     if kind == 0:
-        return AliasedQuery(name, None if from_i == 0 else QS[d].from_(Table("t")).select(Field("k")))
+        aq = AliasedQuery(name, None if from_i == 0 else QS[d].from_(Table("t")).select(Field("k")))
+        return aq.as_(alias) if alias else aq
     if kind == 1:
         return Schema(name, parent=None if from_i == 0 else Database("d"))
     if kind == 2:
@@ -173,7 +174,10 @@ def c17_others(k1: int, k2: int, n1: int, n2: int, a1: int, a2: int, f1: int, f2
     return verdict(why is None, "c17_others", k1=k1, k2=k2, n1=n1, n2=n2, a1=a1, a2=a2, f1=f1, f2=f2)
 
 
-TABLES3 = lambda: (Table("ta"), Table("tb", schema="s"), Table("ta", alias="z"))  # noqa: E731
+def TABLES3(tset=0):
+    if tset == 1:  # same name and leaf schema, different parent schema
+        return (Table("ta", schema=("p1", "s")), Table("ta", schema=("p2", "s")), Table("ta", schema="s"))
+    return (Table("ta"), Table("tb", schema="s"), Table("ta", alias="z"))
 
 
 def expr(shape, fs):
@@ -195,21 +199,21 @@ def expr(shape, fs):
 
 @harness(
     prop="C17",
-    cubes={"shape": range(6)},
+    cubes={"shape": range(6), "tset": [0, 1]},
     bounds={"quick": {}, "thorough": {}},
     timeout={"quick": 300, "thorough": 600},
-    witness=[dict(shape=0, i1=0, i2=1, i3=2, c1=0, c2=0, c3=0)],
-    doc="expressions over three fields, each of table {ta, s.tb, ta AS z} (selector) and column {x, y} (selector), in "
+    witness=[dict(shape=0, tset=0, i1=0, i2=1, i3=2, c1=0, c2=0, c3=0), dict(shape=1, tset=1, i1=0, i2=1, i3=2, c1=0, c2=0, c3=0)],
+    doc="expressions over three fields, each of table {ta, s.tb, ta AS z} or {p1.s.ta, p2.s.ta, s.ta} (selector) and column {x, y} (selector), in "
         "every operand order: fields_() holds every distinct (table, column) reference exactly once and tables_ every table",
 )
-def c17_collect(shape: int, i1: int, i2: int, i3: int, c1: int, c2: int, c3: int) -> int:
+def c17_collect(shape: int, tset: int, i1: int, i2: int, i3: int, c1: int, c2: int, c3: int) -> int:
     """
     bound: 0 <= i1 <= 2 and 0 <= i2 <= 2 and 0 <= i3 <= 2 and 0 <= c1 <= 1 and 0 <= c2 <= 1 and 0 <= c3 <= 1
     """
     idx = [pin(i1, 3), pin(i2, 3), pin(i3, 3)]
     cols = ["x" if pin(c, 2) == 0 else "y" for c in (c1, c2, c3)]
     with _NoTracing():
-        tabs = TABLES3()
+        tabs = TABLES3(tset)
         fs = [Field(cols[k], table=tabs[idx[k]]) for k in range(3)]
         e = expr(shape, fs)
         got = list(e.fields_())
@@ -235,4 +239,4 @@ def c17_collect(shape: int, i1: int, i2: int, i3: int, c1: int, c2: int, c3: int
         note("sql", e.get_sql(DEFAULT_SQL_CONTEXT.copy(with_namespace=True)))
         note("fields", [(g.table.get_table_name(), g.name) for g in got])
         note("why", why)
-    return verdict(why is None, "c17_collect", shape=shape, i1=i1, i2=i2, i3=i3, c1=c1, c2=c2, c3=c3)
+    return verdict(why is None, "c17_collect", shape=shape, tset=tset, i1=i1, i2=i2, i3=i3, c1=c1, c2=c2, c3=c3)
